@@ -376,9 +376,9 @@ class Gen:
                 return ["fpneg", v]
             if k < 82:
                 return ["fpabs", v]
-            if k < 88:
+            if k < 86:
                 return ["fpadd", v, ["fpc", self.fpbits(kk), kk]]
-            if k < 92:
+            if k < 89:
                 return ["fpmul", v, ["fpc", self.fpbits(kk), kk]]
             k2 = r.below(100)
             c = ["fpc", self.fpbits(kk), kk]
